@@ -166,15 +166,23 @@ def build_harness(container, san=True):
     key = ("" if san else "plain_") + h.hexdigest()[:16]
     bindir = CACHE / "bin"
     bindir.mkdir(parents=True, exist_ok=True)
-    exe = bindir / f"h_{container}_{key}"
+    exe = bindir / f"h_{container}__{key}"
     if exe.exists():
         return exe, ""
     with Lock("cc_" + container):
         if exe.exists():
             return exe, ""
-        olds = sorted(bindir.glob(f"h_{container}_*"), key=lambda q: q.stat().st_mtime)
+        def _mt(q):
+            try:
+                return q.stat().st_mtime
+            except OSError:
+                return 0
+        olds = sorted(bindir.glob(f"h_{container}__*"), key=_mt)
         for old in olds[:-5]:
-            old.unlink()
+            try:
+                old.unlink()
+            except OSError:
+                pass
         tmp = bindir / f".tmp_{container}_{os.getpid()}"
         cmd = ["gcc"] + flags + ([] if container in ("spool", "dpool") else ["-DVERIF_WITH_POOL"]) + [f"-I{REPO}/src/include", f"-I{REPO}/src/include/sized",
                                   f"-I{REPO}/src/include/memory", f"-I{REPO}/src", f"-I{REPO}/src/sized",
